@@ -6,6 +6,7 @@ import ast
 from ..core import AnalysisError, call_name, dotted, kwarg, norm, walk_no_nested
 from ..guards import A, And, F, Not, Or, T, atoms_of, equivalent, implies, path_formula, show_formula, sites, to_formula
 from ..registry import describe, rule
+from .. import tmatch as tm
 from ..util import assigned_value, calls_named, is_method_call, peel, resolve, returns_of, const_str
 
 HC = "pgmpy/estimators/HillClimbSearch.py"
@@ -351,6 +352,12 @@ def apply(rc):
     for name in ("tabu_list", "max_indegree", "black_list", "white_list", "fixed_edges"):
         got = dotted(actual.get(name)) if name in actual else None
         rc.ob(f"_legal_operations({name}={got})")
+        if name == "tabu_list" and name not in fi.params:
+            # a local of estimate(): the bounded deque of this call
+            okt = got is not None and tm.has(fn, "_T = deque(maxlen=tabu_length)", {"_T": got})
+            if not okt:
+                rc.fail(fi, c, f"option `{name}` of estimate() must reach the parameter `{name}` of _legal_operations (got {got})", construct=f"forward {name}")
+            continue
         if got != name:
             rc.fail(fi, c, f"option `{name}` of estimate() must reach the parameter `{name}` of _legal_operations (got {got})", construct=f"forward {name}")
     if "structure_score" in actual and not norm(actual["structure_score"]).endswith("structure_prior_ratio"):
@@ -576,10 +583,10 @@ def tree(rc):
     # weights symmetric: both triangles filled with the same values
     for q in ("TreeSearch._get_weights", "TreeSearch._get_conditional_weights"):
         w = repo.func(TS, q)
-        stores = [n for n in walk_no_nested(w.node) if isinstance(n, ast.Assign) and isinstance(n.targets[0], ast.Subscript) and norm(n.value) == "vals"]
-        tri = [norm(n.targets[0]) for n in stores]
-        rc.ob(f"{q}: weight stores {tri}")
-        if not (len(stores) == 2 and any(".T[" in t for t in tri)):
+        _, b1 = tm.find(w.node, "_W[_IX] = _V")
+        oksym = b1 is not None and tm.has(w.node, "_W.T[_IX] = _V", b1) and tm.has(w.node, "_IX = np.triu_indices(_n, k=1)", b1) and any(dotted(r.value) == b1["_W"] for r in returns_of(w))
+        rc.ob(f"{q}: both triangles of the returned matrix filled with the same values: {bool(oksym)}")
+        if not oksym:
             rc.fail(w, w.node, "pairwise weights must fill both triangles (symmetric matrix)", construct="symmetric weights")
         pairs = [c for c in repo.calls_in(w) if call_name(c) == "combinations"]
         idx = [c for c in repo.calls_in(w) if call_name(c) == "triu_indices"]
